@@ -65,8 +65,21 @@ class Model:
 DB, DC = ("dflt", "b"), ("dflt", "c")
 
 
-def subject(kind, h):
-    """-> (node, input originals, output originals, info)"""
+def subject(kind, h, ctor=None):
+    """-> (node, input originals, output originals, info).  ``ctor``: first input batch applied through the
+    constructor's rename_inputs= instead of with_inputs()."""
+    if ctor:
+        n, ins, outs, spec = subject(kind, _Collect())
+        spec = dict(spec, ctor_rename_in=dict(ctor))
+        return build_node(spec, h), ins, outs, spec
+    return _subject(kind, h)
+
+
+class _Collect(H):
+    pass
+
+
+def _subject(kind, h):
     if kind == "fn":
         spec = T.fn("nf", ["a", "b", "c"], ["o1", "o2"], defaults={"b": list(DB), "c": list(DC)}, types={"a": int, "b": str, "c": float, "return": tuple[int, str]})
         return build_node(spec, h), ["a", "b", "c"], ["o1", "o2"], spec
@@ -224,13 +237,30 @@ def check_exec(kind, node, mi, mo, h, runner="sync"):
 
 
 def run_history(kind, hist, acc, via_ctor=False):
-    """hist: list of (attr, mapping)."""
+    """hist: list of (attr, mapping).  via_ctor: the first batch (inputs) goes through the constructor."""
     h = H()
-    node, in_orig, out_orig, spec = subject(kind, h)
-    mi, mo = Model(in_orig), Model(out_orig)
-    name = node.name
-    pool = set(in_orig) | set(FRESH) | set(out_orig) | set(FRESH_OUT)
     vs = []
+    if via_ctor:
+        try:
+            node, in_orig, out_orig, spec = subject(kind, h, ctor=hist[0][1])
+        except Exception as e:  # noqa: BLE001
+            return [("rename-rejected", f"constructor rename_inputs={hist[0][1]} rejected: {type(e).__name__}: {e}")]
+        mi, mo = Model(in_orig), Model(out_orig)
+        mi.apply(hist[0][1])
+        hist = hist[1:]
+        name = node.name
+        pool = set(in_orig) | set(FRESH) | set(out_orig) | set(FRESH_OUT)
+        try:
+            st0 = check_static(kind, node, mi, mo, name, pool)
+        except Exception as e:  # noqa: BLE001
+            st0 = [("lookup-raised", f"{type(e).__name__}: {e}")]
+        if st0:
+            return [(s_, f"after constructor rename: {m}") for s_, m in st0]
+    else:
+        node, in_orig, out_orig, spec = subject(kind, h)
+        mi, mo = Model(in_orig), Model(out_orig)
+        name = node.name
+        pool = set(in_orig) | set(FRESH) | set(out_orig) | set(FRESH_OUT)
     from ..dsl import touch
 
     for bi, (attr, mapping) in enumerate(hist):
@@ -369,10 +399,17 @@ def run_shard(shard):
         reused = any(attr != "name" and (set(m.values()) & (set(ins) | set(outs))) for attr, m in hist) or len(hist) > 1
         if reused:
             acc.key((kind, repr(hist)))
-        vs = run_history(kind, hist, acc)
-        acc.outcomes[(kind, K, "ok" if not vs else vs[0][0])] += 1
-        for sym, msg in vs:
-            acc.violation({"symptom": sym, "kind": kind}, {"kind": kind, "history": [[a, m] for a, m in hist]}, f"{kind} node, history {hist}: {msg}", size=len(repr(hist)))
+        runs = [False]
+        if kind in ("fn", "fn2", "ifelse", "route", "interrupt") and hist[0][0] == "inputs":
+            runs.append(True)
+        for via_ctor in runs:
+            vs = run_history(kind, hist, acc, via_ctor)
+            if via_ctor:
+                acc.evaluations += 1
+                acc.key((kind, "ctor", repr(hist)))
+            acc.outcomes[(kind, K, "ok" if not vs else vs[0][0])] += 1
+            for sym, msg in vs:
+                acc.violation({"symptom": sym, "kind": kind, **({"via": "constructor"} if via_ctor else {})}, {"kind": kind, "history": [[a, m] for a, m in hist], "via_ctor": via_ctor}, f"{kind} node, history {hist}{' (first batch through the constructor)' if via_ctor else ''}: {msg}", size=len(repr(hist)))
         if i == s:
             acc.sample({"kind": kind, "history": [[a, m] for a, m in hist]}, 1)
     return acc
@@ -389,4 +426,4 @@ def replay(rep):
             return ["alpha-renamed graph differs"]
         return []
     hist = [(a, m) for a, m in rep["history"]]
-    return [m for _, m in run_history(rep["kind"], hist, Acc())]
+    return [m for _, m in run_history(rep["kind"], hist, Acc(), rep.get("via_ctor", False))]
